@@ -6,6 +6,7 @@ package main
 
 import (
 	"go/ast"
+	"go/token"
 	"go/types"
 
 	"golang.org/x/tools/go/cfg"
@@ -46,13 +47,18 @@ type noReturnFunc func(*ast.CallExpr) bool
 // final pass with report=true).
 func runFlow(body *ast.BlockStmt, noret noReturnFunc, init flowState, transfer func(n ast.Node, st flowState, report bool) flowState) *flowResult {
 	g := cfg.New(body, func(c *ast.CallExpr) bool { return !noret(c) })
-	res := &flowResult{g: g, in: map[*cfg.Block]flowState{}, out: map[*cfg.Block]flowState{}}
 	if len(g.Blocks) == 0 {
-		return res
+		return &flowResult{g: g, in: map[*cfg.Block]flowState{}, out: map[*cfg.Block]flowState{}}
 	}
-	res.in[g.Blocks[0]] = init.clone()
-	work := []*cfg.Block{g.Blocks[0]}
-	inWork := map[*cfg.Block]bool{g.Blocks[0]: true}
+	return runFlowFrom(g, g.Blocks[0], init, transfer)
+}
+
+// runFlowFrom starts the analysis at an arbitrary block (region analysis).
+func runFlowFrom(g *cfg.CFG, start *cfg.Block, init flowState, transfer func(n ast.Node, st flowState, report bool) flowState) *flowResult {
+	res := &flowResult{g: g, in: map[*cfg.Block]flowState{}, out: map[*cfg.Block]flowState{}}
+	res.in[start] = init.clone()
+	work := []*cfg.Block{start}
+	inWork := map[*cfg.Block]bool{start: true}
 	for len(work) > 0 {
 		b := work[0]
 		work = work[1:]
@@ -238,4 +244,64 @@ func recvIdentObj(call *ast.CallExpr, info *types.Info) types.Object {
 		return info.Uses[id]
 	}
 	return nil
+}
+
+
+// recoveredRegion finds, in a recover handler, the blocks entered only when the
+// recovered value is non-nil: the then-branch of `if e != nil`, or the
+// continuation of `if e == nil { return }`.
+func recoveredRegion(body *ast.BlockStmt, info *types.Info, noret noReturnFunc) (*cfg.CFG, []*cfg.Block) {
+	g := cfg.New(body, func(c *ast.CallExpr) bool { return !noret(c) })
+	// variables assigned from recover()
+	rec := map[types.Object]bool{}
+	ast.Inspect(body, func(x ast.Node) bool {
+		as, ok := x.(*ast.AssignStmt)
+		if !ok || len(as.Lhs) != 1 || len(as.Rhs) != 1 {
+			return true
+		}
+		if call, ok := as.Rhs[0].(*ast.CallExpr); ok {
+			if id, ok := call.Fun.(*ast.Ident); ok && id.Name == "recover" {
+				if l, ok := as.Lhs[0].(*ast.Ident); ok {
+					if o := info.Defs[l]; o != nil {
+						rec[o] = true
+					} else if o := info.Uses[l]; o != nil {
+						rec[o] = true
+					}
+				}
+			}
+		}
+		return true
+	})
+	nilTest := func(e ast.Expr) (neq bool, ok bool) {
+		be, isB := ast.Unparen(e).(*ast.BinaryExpr)
+		if !isB || (be.Op != token.NEQ && be.Op != token.EQL) {
+			return false, false
+		}
+		x, y := ast.Unparen(be.X), ast.Unparen(be.Y)
+		if id, isID := y.(*ast.Ident); !isID || id.Name != "nil" {
+			x, y = y, x
+		}
+		if id, isID := y.(*ast.Ident); !isID || id.Name != "nil" {
+			return false, false
+		}
+		if id, isID := x.(*ast.Ident); isID && rec[info.Uses[id]] {
+			return be.Op == token.NEQ, true
+		}
+		return false, false
+	}
+	var out []*cfg.Block
+	for _, b := range g.Blocks {
+		ifs, ok := b.Stmt.(*ast.IfStmt)
+		if !ok {
+			continue
+		}
+		neq, ok := nilTest(ifs.Cond)
+		if !ok {
+			continue
+		}
+		if (neq && b.Kind == cfg.KindIfThen) || (!neq && (b.Kind == cfg.KindIfElse || (b.Kind == cfg.KindIfDone && ifs.Else == nil))) {
+			out = append(out, b)
+		}
+	}
+	return g, out
 }
